@@ -131,6 +131,24 @@ def rule_layout_eval(chk, cl, gl):
     ok = examined == {"StructuredBuffer", "RWStructuredBuffer"}
     chk.ob("C19.cover/structured-buffers", ok, "element types of StructuredBuffer / RWStructuredBuffer globals are validated" if ok else
            "check_layout examines the element types of %s globals (must be exactly StructuredBuffer and RWStructuredBuffer)" % sorted(examined), where(cl))
+    # typed loads / stores: the T of Load<T> / Store<T> on raw buffers and buffer addresses is validated whatever globals exist
+    badt = None
+    f1 = sc["Float32"]
+    glob_sets = {"a ByteAddressBuffer global": [m.object("ByteAddressBuffer", None)], "a RWByteAddressBuffer global": [m.object("RWByteAddressBuffer", None)],
+                 "a BufferAddress global": [m.object("BufferAddress", None)], "a RWBufferAddress global": [m.object("RWBufferAddress", None)],
+                 "an array of ByteAddressBuffer": [m.array(m.object("ByteAddressBuffer", None), 4)], "a const ByteAddressBuffer global": [m.modifier(m.object("ByteAddressBuffer", None))]}
+    for intr in ("ByteAddressBufferLoadT", "RWByteAddressBufferLoadT", "RWByteAddressBufferStore", "BufferAddressLoad", "RWBufferAddressLoad", "RWBufferAddressStore"):
+        for gname, gl_ in glob_sets.items():
+            r = m.check(gl_, typed=[(intr, mism)])
+            if r[0] in ("unreadable",):
+                badt = badt or ("unreadable", r[1])
+                break
+            if r[0] != "Mismatch" and badt is None:
+                badt = "a struct whose HLSL and Metal layouts differ, used only as the T of %s, in a module with %s, gives %s: the typed load / store is not validated" % (intr, gname, r[0])
+    if isinstance(badt, tuple):
+        chk.unreadable("C19.cover/typed-loads", "check_layout on modules with typed load instantiations", badt[1][:100], where(cl))
+    else:
+        chk.ob("C19.cover/typed-loads", badt is None, badt or "the element type of every typed load / store intrinsic is validated, whatever globals the module has", where(cl))
     # two globals: the first mismatch is reported, an accepted one does not hide a later mismatch
     r = m.check([m.object("StructuredBuffer", structs["{float; float}"]), m.object("RWStructuredBuffer", mism)])
     chk.ob("C19.cover/every-global", r[0] == "Mismatch", "every structured buffer global is examined" if r[0] == "Mismatch" else
